@@ -2031,7 +2031,13 @@ def msvcrt_strrchr(jitter):
     ret_ad, args = jitter.func_args_cdecl(['pstr','c'])
     s = get_win_str_a(jitter, args.pstr)
     c = int_to_byte(args.c).decode()
-    ret = args.pstr + s.rfind(c)
+    if args.c == 0:
+        # The terminating null character is part of the string
+        ret = args.pstr + len(s)
+    elif c in s:
+        ret = args.pstr + s.rfind(c)
+    else:
+        ret = 0
     log.info("strrchr(%x '%s','%s') = %x" % (args.pstr,s,c,ret))
     jitter.func_ret_cdecl(ret_ad, ret)
 
@@ -2039,7 +2045,13 @@ def msvcrt_wcsrchr(jitter):
     ret_ad, args = jitter.func_args_cdecl(['pstr','c'])
     s = get_win_str_w(jitter, args.pstr)
     c = int_to_byte(args.c).decode()
-    ret = args.pstr + (s.rfind(c)*2)
+    if args.c == 0:
+        # The terminating null character is part of the string
+        ret = args.pstr + len(s) * 2
+    elif c in s:
+        ret = args.pstr + (s.rfind(c)*2)
+    else:
+        ret = 0
     log.info("wcsrchr(%x '%s',%s) = %x" % (args.pstr,s,c,ret))
     jitter.func_ret_cdecl(ret_ad, ret)
 
